@@ -11,13 +11,13 @@ use serde_json::{json, Value};
 use std::collections::HashSet;
 use std::sync::Arc;
 
-#[derive(Clone, Debug, PartialEq, Eq, Hash)]
+#[derive(Clone, Debug, PartialEq, Eq, Hash, serde::Serialize, serde::Deserialize)]
 pub enum Target {
     Req(usize),
     Unknown,
 }
 
-#[derive(Clone, Debug, PartialEq, Eq, Hash)]
+#[derive(Clone, Debug, PartialEq, Eq, Hash, serde::Serialize, serde::Deserialize)]
 pub enum Raw {
     Garbage,
     TruncatedHeader,
@@ -25,7 +25,7 @@ pub enum Raw {
     RequestClass,
 }
 
-#[derive(Clone, Debug, PartialEq, Eq, Hash)]
+#[derive(Clone, Debug, PartialEq, Eq, Hash, serde::Serialize, serde::Deserialize)]
 pub enum Event {
     Send { app: usize },
     SendM { app: usize, method: u16, indication: bool },
@@ -50,6 +50,21 @@ impl Event {
             o => format!("{:?}", o),
         }
     }
+}
+
+/// Replay artefact of a client history: human-readable rendering plus the machine-readable configuration,
+/// application attribute lists and event list that `./check <id> replay <file>` re-executes without the explorer.
+pub fn history_replay(w: &World, hist: &[Event], obs: &Obs) -> Value {
+    json!({
+        "kind": "history",
+        "config": w.cfg.show(),
+        "events": show_history(hist),
+        "observed": super::world::show_events(&obs.events),
+        "result": format!("{:?}", obs.res).chars().take(200).collect::<String>(),
+        "cfg_json": serde_json::to_value(&w.cfg).unwrap_or(Value::Null),
+        "apps_json": serde_json::to_value(&*w.app_lists).unwrap_or(Value::Null),
+        "events_json": serde_json::to_value(hist).unwrap_or(Value::Null),
+    })
 }
 
 pub fn show_history(h: &[Event]) -> Value {
